@@ -313,12 +313,25 @@ DoOn(s, st) ==
     IF r.v = 0 \/ r.v > Len(st.ns) THEN Adv(s) ELSE
     IF st.t = "GOTO" THEN Jump(s, st.ns[r.v]) ELSE Sub(s, st.ns[r.v], After(s, s.cur), 0)
 
+\* The ELSE that belongs to the IF at position p: the first ELSE after it on the line that is not claimed by an IF nested in
+\* between (an ELSE binds to the nearest IF that has none yet).  0: the IF has no ELSE.  depth = IFs seen and still without ELSE.
+RECURSIVE ElseScan(_, _, _, _)
+ElseScan(s, li, j, depth) ==
+    IF j > Len(Stmts(s, li)) THEN 0
+    ELSE LET o == Stmts(s, li)[j].op IN
+         IF o = "IF" THEN ElseScan(s, li, j + 1, depth + 1)
+         ELSE IF o = "ELSE" THEN (IF depth = 0 THEN j ELSE ElseScan(s, li, j + 1, depth - 1))
+         ELSE ElseScan(s, li, j + 1, depth)
+ElseIdx(s, p) == ElseScan(s, p[1], p[2] + 1, 0)
 DoIf(s, st) ==
     LET r == Eval(s, st.e) IN IF ~r.ok THEN Fail(s, r) ELSE
     IF r.v # 0 THEN (IF st.tn # 0 THEN Jump(s, st.tn) ELSE Adv(s))
-    ELSE IF st.ei = 0 THEN [s EXCEPT !.pc = NextLine(s.cur)]
-    ELSE IF st.en # 0 THEN Jump(s, st.en)
-    ELSE [s EXCEPT !.pc = Norm(s, <<s.cur[1], st.ei + 1>>)]
+    ELSE LET ei == ElseIdx(s, s.cur) IN
+         IF ei = 0 THEN [s EXCEPT !.pc = NextLine(s.cur)]
+         ELSE LET es == Stmts(s, s.cur[1])[ei]
+                  en == IF "n" \in DOMAIN es THEN es.n ELSE st.en        \* ELSE <line>: on the ELSE itself, or (one IF per line) on the IF
+              IN  IF en # 0 THEN Jump(s, en)
+                  ELSE [s EXCEPT !.pc = Norm(s, <<s.cur[1], ei + 1>>)]
 
 (* ---------------- error trapping ---------------- *)
 DoOnErr(s, st) ==
